@@ -125,6 +125,10 @@ def process_chunk(cases):
             same = COMPARATORS[cmpname](io, mo) if cmpname else (canon(io) == canon(mo))
             if not same and first_diff is None:
                 first_diff = dict(line=li, op=l, impl=io, model=mo)
+                if io.startswith('crash:') and mo is not None and not mo.startswith('err') and mo != 'unmodelled':
+                    # neither KeyError/ValueError nor a result: valid calls must succeed, invalid ones must be
+                    # rejected with KeyError or ValueError
+                    oracle_fails.append((li, l, 'FAIL the implementation raised %s where the model answers %s' % (io[6:], mo[:60])))
             # distinct non-trivial (state, op) pairs: an op that was rejected or changed the observed state
             state_hash.update(canon(io).encode())
             if op not in ('obs', 'alias', 'reset') and not op.startswith('q:') and op != 'dict':
@@ -137,7 +141,7 @@ def process_chunk(cases):
             failures.append(dict(kind='harness-error', tag=case.get('tag'), case=case, error='oracle raised: %r' % (oracle_errors[:2],)))
         if oracle_fails:
             failures.append(dict(kind='impl-violation', tag=case.get('tag'), case=case, oracle=[list(x) for x in oracle_fails[:5]],
-                                 first_difference=first_diff))
+                                 first_difference=first_diff, oracle_errors=len(oracle_errors)))
         elif first_diff is not None:
             failures.append(dict(kind='correspondence', tag=case.get('tag'), case=case, first_difference=first_diff))
     stats['wall_s'] = time.time() - t0
@@ -190,6 +194,8 @@ def still_fails(case, kind, oracle=None):
             if str(d.get('impl', '')).startswith('err') or str(d.get('model', '')).startswith('err'):
                 continue
             return True
+        if x.get('oracle_errors'):
+            continue            # a candidate in which an oracle could not be evaluated is not a valid script
         if oracle is None or any(o[1].split()[0] == oracle[0] and o[2].split()[:3] == oracle[1] for o in (x.get('oracle') or [])):
             return True
     return False
